@@ -2,7 +2,7 @@
    Final statements only; for EVERY callee record and both state machines; stated on the reference machine
    (Model/Parser.v [reference]); C01 relates the implementation's machine to it on quiet runs. *)
 From Coq Require Import ZArith.
-From Httoop Require Import Model.Parser Proofs.ParserFrag Proofs.ParserWf Corr.Parser.
+From Httoop Require Import Model.Parser Model.Composer Proofs.ParserFrag Proofs.ParserWf Proofs.ParserChunked Corr.Parser.
 
 (* Isolation / pipelining: if [a] is parsed into complete messages leaving the machine idle, then for ANY
    following octets [b] the deliveries are those of [a] followed by exactly the deliveries of [b] parsed
@@ -23,13 +23,12 @@ Theorem C02_truncation : forall (C : callees) (k : kind) p q,
 Proof. exact truncation. Qed.
 Print Assumptions C02_truncation.
 
-(* Exact delivery of a Content-Length framed message (partial: the chunked counterpart is validated by the
-   correspondence run and by C04's composer/parser theorem, not proved here): start line without CRLF accepted
+(* Exact delivery of a Content-Length framed message: start line without CRLF accepted
    by the start-line callee, a header block that Headers.parse reads as h and that contains no empty line,
    Content-Length = decimal |body|, no Transfer-Encoding / Content-Encoding; followed by any octets [rest].
    The message is delivered with exactly that line, those header fields and that body, and [rest] is parsed as
    if it stood alone. *)
-Theorem C02_content_length_message_partial : forall (C : callees) (k : kind) line info block h body rest,
+Theorem C02_content_length_message : forall (C : callees) (k : kind) line info block h body rest,
   cut CRLF line = None -> c_start C line = SlOk info ->
   block <> [] -> prefixb CRLF block = false -> cut (CRLF ++ CRLF) (block ++ CRLF) = None ->
   hparse [] block = Some h ->
@@ -41,13 +40,59 @@ Theorem C02_content_length_message_partial : forall (C : callees) (k : kind) lin
   parse reference C k init (line ++ CRLF ++ block ++ CRLF ++ CRLF ++ body ++ rest) =
   let '(s2, m2, e) := parse reference C k init rest in (s2, {| m_line := line; m_hdrs := h; m_body := body |} :: m2, e).
 Proof. exact content_length_message_exact. Qed.
-Print Assumptions C02_content_length_message_partial.
+Print Assumptions C02_content_length_message.
+
+(* Exact delivery of a chunked message as any sender may write it: ANY partition of the payload into non-empty
+   chunks [cs] (data, chunk-ext), sizes in hexadecimal as "%x" prints them (upper-case digits, leading zeros and
+   blanks after the size are validated by the correspondence run, not part of this statement), an extension on every
+   chunk and on the last-chunk (";..." without LF), no trailer fields; followed by any octets [rest]: delivered with
+   Content-Length = decimal payload length, Transfer-Encoding removed, body = the concatenated chunk data, and
+   [rest] parsed as if it stood alone. *)
+Theorem C02_chunked_message : forall (C : callees) (k : kind) line info block h cs e0 rest,
+  cut CRLF line = None -> c_start C line = SlOk info -> p11 info = true ->
+  block <> [] -> prefixb CRLF block = false -> cut (CRLF ++ CRLF) (block ++ CRLF) = None ->
+  hparse [] block = Some h ->
+  (match k with Server => negb (hmem K_HOST h) | Client => false end) = false ->
+  c_hdrs C true h = HOk -> hget K_TE h = Some CHUNKED -> hget K_CE h = None ->
+  forallb chunk_ok cs = true -> ext_ok e0 = true ->
+  (match k with Server => nobody info && nonempty_b (concat_bytes (map fst cs)) | Client => false end) = false ->
+  parse reference C k init (line ++ CRLF ++ block ++ CRLF ++ CRLF ++ (concat_bytes (map wchunk cs) ++ wlast e0 ++ CRLF ++ rest)) =
+  let '(s2, m2, e) := parse reference C k init rest in
+  (s2, {| m_line := line; m_hdrs := hdel K_TE (hset K_CL (dec_of_N (N.of_nat (List.length (concat_bytes (map fst cs))))) h);
+          m_body := concat_bytes (map fst cs) |} :: m2, e).
+Proof. exact chunked_message_exact. Qed.
+Print Assumptions C02_chunked_message.
+
+(* ... and with a trailer section [tblock] that Headers.parse reads as [tr], whose fields are all announced by the
+   Trailer field ([merge_trailers] leaves nothing over): the announced fields are merged into the header fields. *)
+Theorem C02_chunked_message_trailers : forall (C : callees) (k : kind) line info block h cs e0 tblock tr tv ns h' rest,
+  cut CRLF line = None -> c_start C line = SlOk info -> p11 info = true ->
+  block <> [] -> prefixb CRLF block = false -> cut (CRLF ++ CRLF) (block ++ CRLF) = None ->
+  hparse [] block = Some h ->
+  (match k with Server => negb (hmem K_HOST h) | Client => false end) = false ->
+  c_hdrs C true h = HOk -> hget K_TE h = Some CHUNKED -> hget K_CE h = None ->
+  forallb chunk_ok cs = true -> ext_ok e0 = true ->
+  tblock <> [] -> prefixb CRLF tblock = false -> cut (CRLF ++ CRLF) (tblock ++ CRLF) = None ->
+  hparse [] tblock = Some tr ->
+  hget K_TRAILER h = Some tv -> nonempty_b tv = true -> c_trailer C tv = TrOk ns ->
+  merge_trailers C ns h tr = inl (h', []) ->
+  (match k with Server => nobody info && nonempty_b (concat_bytes (map fst cs)) | Client => false end) = false ->
+  parse reference C k init (line ++ CRLF ++ block ++ CRLF ++ CRLF ++ (concat_bytes (map wchunk cs) ++ wlast e0 ++ tblock ++ CRLF ++ CRLF ++ rest)) =
+  let '(s2, m2, e) := parse reference C k init rest in
+  (s2, {| m_line := line; m_hdrs := hdel K_TE (hset K_CL (dec_of_N (N.of_nat (List.length (concat_bytes (map fst cs))))) h');
+          m_body := concat_bytes (map fst cs) |} :: m2, e).
+Proof. exact chunked_message_trailers. Qed.
+Print Assumptions C02_chunked_message_trailers.
 
 (* non-vacuity: a concrete response with a 3-octet body satisfies every hypothesis *)
 Definition T : tables := {|
   t_start := [(X "485454502f312e3120323030204f4b", SlOk {| p11 := true; nobody := false |})];
   t_hdrs := [((true, [(X "436f6e74656e742d4c656e677468", X "33"); (X "582d41", X "62")]), HOk)];
   t_decode := []; t_2047 := []; t_trailer := [] |}.
+(* ... and a chunk list with extensions is well-formed *)
+Example C02_chunks_example : forallb chunk_ok [(X "616263", X "3b783d79"); (X "64", [])] = true /\ ext_ok (X "3b6c617374") = true.
+Proof. vm_compute. auto. Qed.
+
 Example C02_example :
   let block := X "436f6e74656e742d4c656e6774683a20330d0a782d613a2062" in
   let h := [(X "436f6e74656e742d4c656e677468", X "33"); (X "582d41", X "62")] in
